@@ -815,3 +815,16 @@ GROUPS["p12"] = [
     E("p-c19-batch-join-with-final-newline", ["C19"], "harper-stats/src/lib.rs", _SW_OLD,
       _SW_BATCH % "?;\n        if !lines.is_empty() {\n            w.write_all(b\"\\n\")?;\n        }\n        Ok(())", None),
 ]
+
+# C15/C06: a child skipped because its hash is already held (the shape of seeded/C15-d) / because it is the very same Arc
+_AD_OLD = "        self.child_hashes.push(self.hash_dictionary(&dictionary));\n        self.children.push(dictionary);"
+GROUPS["g24"] += [
+    E("c15-add-dictionary-dedup-by-hash", ["C15", "C06", "C07"], "harper-core/src/spell/merged_dictionary.rs", _AD_OLD,
+      "        let hash = self.hash_dictionary(&dictionary);\n        if self.child_hashes.contains(&hash) {\n            return;\n        }\n        self.child_hashes.push(hash);\n        self.children.push(dictionary);",
+      "MergedDictionary::add_dictionary:always-adds"),
+]
+GROUPS["p12"] += [
+    E("p-c15-add-dictionary-dedup-by-identity", ["C15", "C06", "C07"], "harper-core/src/spell/merged_dictionary.rs", _AD_OLD,
+      "        if self.children.iter().any(|c| Arc::ptr_eq(c, &dictionary)) {\n            return;\n        }\n" + _AD_OLD,
+      None),
+]
